@@ -52,6 +52,20 @@ def gen_knots(rng, order, extra, style, scale=1.0, offset=0.0):
         for i in range(n):
             ks.append(float(a))
             a += rng.rint(1, 3)
+    elif style in ("multi", "clamped"):
+        # knots of multiplicity exactly order or order+1 (a kink / a jump of the spline: the basis function starting there
+        # vanishes at the knot but its one-sided slope does not); "clamped": the end knots repeated order+1 times
+        a = offset
+        while len(ks) < n:
+            left = n - len(ks)
+            if style == "clamped" and (len(ks) == 0 or left <= order + 1):
+                m = min(left, order + 1)
+            elif rng.chance(0.4):
+                m = min(left, max(1, order + rng.choice([0, 0, 1])))
+            else:
+                m = 1
+            ks += [a] * m
+            a += scale * (0.05 + rng.unit())
     # ensure first < last strictly and non-decreasing in floating point
     for i in range(1, n):
         if ks[i] < ks[i - 1]:
@@ -148,7 +162,7 @@ def gen_table(rng, ndim=None, max_coefs=60000, pattern=None, knot_style=None, co
                 orders = orders[:ndim]
     knots = []
     for o, e in zip(orders, extras):
-        style = knot_style or rng.choice(["uniform", "irregular", "irregular", "repeated", "integer"])
+        style = knot_style or rng.choice(["uniform", "irregular", "irregular", "repeated", "integer", "multi", "clamped"])
         scale = 10.0 ** rng.rint(scale_range[0], scale_range[1])
         offset = (rng.unit() * 20 - 10) * scale
         knots.append(gen_knots(rng, o, e, style, scale, offset))
@@ -158,7 +172,7 @@ def gen_table(rng, ndim=None, max_coefs=60000, pattern=None, knot_style=None, co
     return Table(orders, knots, coefs, pad)
 
 # ------------------------------------------------------------------------------------------------
-IN_CLASSES = ["knot", "knot+", "knot-", "mid", "lmargin", "rmargin", "rand", "full_lo", "full_hi", "last"]
+IN_CLASSES = ["knot", "knot+", "knot-", "mid", "lmargin", "rmargin", "rand", "full_lo", "full_hi", "last", "repknot"]
 OUT_CLASSES = ["first", "below", "above", "inf", "-inf", "hugeneg", "hugepos"]
 WEIRD_CLASSES = ["nan", "denorm", "zero", "-zero"]
 
@@ -168,6 +182,9 @@ def gen_coord(rng, t, d, cls):
     na = n - o - 1
     if cls == "knot":
         return k[rng.below(n)]
+    if cls == "repknot":          # a knot that occurs more than once (any knot when there is none)
+        rep = [v for i, v in enumerate(k[1:], 1) if v == k[i - 1]]
+        return rng.choice(rep) if rep else k[rng.below(n)]
     if cls == "knot+":
         return nextafter(k[rng.below(n)], math.inf)
     if cls == "knot-":
@@ -556,12 +573,14 @@ class EvalCheck:
         ndiff, nor = self.analyse(res, out, stats)
         nq = res["nq"]
         searched = 0
-        if (ndiff or not info["proof_ok"]) and not out.violations:
+        # a reproduced KNOWN finding is not the failing input of a broken tie: only violations outside the list count here
+        fresh = lambda: [v for v in out.violations if v[0] not in open_signatures(self.PROP)]
+        if (ndiff or not info["proof_ok"]) and not fresh():
             # (D): the tie or a proof broke — search 10x for a concrete failing input of the property itself
             r2 = self.explore(seed + 7919, 10 * n, "search", model=False)
             _, nor2 = self.analyse(r2, out, stats)
             searched = r2["nq"]
-            if not out.violations and ndiff:
+            if not fresh() and ndiff:
                 qid = next(iter(stats.get("diff_queries", {})))
                 t, q = res["meta"][qid]
                 p = self.case_payload(t, q, qid)
